@@ -493,7 +493,8 @@ type envChecker struct {
 	why  string
 	// observations used by classifiers and the non-triviality rule
 	abstractFrags int
-	goNameClash   string
+	goNameClash   string // description of the first Go field-name clash inside one selection set
+	clashKind     string // "key-vs-holder" | "dup-cond" | "holder-vs-holder"
 }
 
 func (e *envChecker) out(format string, a ...any) {
@@ -565,6 +566,14 @@ func (e *envChecker) set(parent string, sels []Sel) {
 	note := func(goName, what string) {
 		if prev, ok := goNames[goName]; ok && e.goNameClash == "" {
 			e.goNameClash = fmt.Sprintf("%s and %s both map to the Go field %s", prev, what, goName)
+			switch {
+			case strings.HasPrefix(prev, "key ") != strings.HasPrefix(what, "key "):
+				e.clashKind = "key-vs-holder"
+			case prev == what && strings.HasPrefix(what, "fragment on "):
+				e.clashKind = "dup-cond"
+			default:
+				e.clashKind = "holder-vs-holder"
+			}
 		}
 		goNames[goName] = what
 	}
